@@ -1,8 +1,7 @@
 //! C01 - directory-tree operations behave like a case-insensitive in-memory tree
-use super::hist::{self, HistProp};
+use super::hist::HistProp;
 use crate::gen::GenCfg;
 use crate::ops::{Aspect, RunCfg, Trace};
-use crate::run::Tier;
 
 fn nontrivial(t: &Trace) -> bool {
     t.has("mutation") && (t.has("op_failed") || t.has("cross_dir_rename") || t.has("lookup_other_case_or_alias"))
@@ -20,12 +19,9 @@ pub fn prop() -> HistProp {
         run_cfg: rc,
         gen_cfg: GenCfg::namespace(),
         nontrivial,
-        quick_cases: 2000,
-        thorough_cases: 60000,
+        quick_cases: 20000,
+        thorough_cases: 400000,
         assumptions: vec!["no removal/rename of an object with a live handle, no two handles on one file (documented precondition)", "'.' and '..' are not generated as path components", "rename onto the same entry is a successful no-op (explicit branch in the code and docs)"],
     }
 }
 
-pub fn run(tier: Tier, seed: u64) -> i32 {
-    hist::run(&prop(), tier, seed)
-}
